@@ -30,6 +30,8 @@ def one(sname):
     except RuntimeError as exc:
         return sname, meta, [], [f'DOES-NOT-APPLY: {str(exc)[:80]}']
     hits, errs = [], []
+    if '--own' in sys.argv:
+        mods = {p: m for p, m in mods.items() if p == meta['property']}
     try:
         an = report.Analysis(root=tmp)
         for p, mod in mods.items():
